@@ -19,7 +19,7 @@ from __future__ import annotations
 
 from ..core import AnalysisError
 from ..absint import TOP, Evaluator, Obj, Sym, Unmodelled
-from ..harness import apply_attr_models, apply_models, da_method_models, run_apply
+from ..harness import foreign_ops, apply_attr_models, apply_models, da_method_models, run_apply
 from ..xmodel import COMMON_MODELS, dimsym, make_da, make_grid
 
 EXPLANATION = (
@@ -366,7 +366,9 @@ def _r11_345(ctx, P):
             # what comes back is what the function returned (padded afterwards if asked), re-labelled - nothing else
             for x in (o.value if isinstance(o.value, (list, tuple)) else [o.value]):
                 if isinstance(x, Obj):
-                    others = [e[0] for e in x.eff if e[0] not in ("PAD", "REATTACH", "RECHUNK", "copy", "transpose")]
+                    others, unknown_ops = foreign_ops(x.eff, expected=("PAD", "REATTACH", "RECHUNK"))
+                    if unknown_ops:
+                        raise Unmodelled(f"operation(s) {unknown_ops} on a returned array")
                     if x.name != "RESULT" or others:
                         probs.setdefault("R11.3", f"a returned array is {x.name!r} after {[e[0] for e in x.eff]}: the function's output is altered by {others or 'something else'} on its way back")
         if probs:
